@@ -36,7 +36,7 @@ Test(s, t) == /\ Queries /\ pending = <<>> /\ q = NoQ /\ hist # <<>>
               /\ q' = <<"test", s, t, TestAns(St, s, t), {}>>
               /\ UNCHANGED <<rep, classList, useList, lookup, forest, pending, hist>>
 Explain(s, t) == /\ Queries /\ pending = <<>> /\ q = NoQ /\ hist # <<>> /\ TestAns(St, s, t)
-                 /\ q' = <<"explain", s, t, TRUE, ExplainEqs(forest, s, t)>>
+                 /\ q' = <<"explain", s, t, TRUE, SafeExplainEqs(forest, s, t)>>
                  /\ UNCHANGED <<rep, classList, useList, lookup, forest, pending, hist>>
 Return == q # NoQ /\ q' = NoQ /\ UNCHANGED <<rep, classList, useList, lookup, forest, pending, hist>>
 \* (two disjuncts: TLC's simulator first picks a disjunct, so long random sequences mix both kinds of equation)
@@ -46,6 +46,9 @@ Next == \/ \E e \in CEqs(Consts) : Merge(e)
         \/ \E p \in Pairs : Test(p[1], p[2]) \/ Explain(p[1], p[2])
         \/ Return
 Spec == Init /\ [][Next]_vars
+\* state constraint of the small 4-constant configuration: constant equations only (enough to make classes of size two meet,
+\* which is what exercises the path reversal of the proof forest; three constants never do)
+CEqOnly == \A i \in 1..Len(hist) : hist[i][1] = "c"
 
 \* ---------------------------------------------------------------- refinement of S
 \* (beyond 4 constants the class-map formulation, which C17_CongC checks equal to the least fixpoint, keeps simulation fast)
@@ -55,7 +58,7 @@ Expl(X, s, t) == IF Small THEN Explains(Consts, X, merged, s, t) ELSE ExplainsFa
 Quiescent == pending = <<>>
 TestCorrect == Quiescent => LET cl == Cl(merged) IN \A p \in Pairs : TestAns(St, p[1], p[2]) <=> (p \in cl)
 ExplainCorrect == Quiescent => \A p \in Pairs : (p[1] # p[2] /\ TestAns(St, p[1], p[2])) =>
-                                  Expl(ExplainEqs(forest, p[1], p[2]), p[1], p[2])
+                                  Expl(SafeExplainEqs(forest, p[1], p[2]), p[1], p[2])
 \* the answers given to queries (when Queries): what a caller observes between merges
 QueryCorrect == /\ q[1] = "test" => (q[4] <=> <<q[2], q[3]>> \in Cl(merged))
                 /\ q[1] = "explain" => Expl(q[5], q[2], q[3])
